@@ -271,8 +271,12 @@ class CachedStore(Entity):
         flushed = 0
         for key in list(self._dirty_keys):
             if key in self._cache:
-                yield from self._backing_store.put(key, self._cache[key])
-                self._dirty_keys.discard(key)
+                value = self._cache[key]
+                yield from self._backing_store.put(key, value)
+                if key in self._cache and self._cache[key] is value:
+                    # Clean only if the entry was not rewritten while the
+                    # write was in flight (that newer value is still unflushed)
+                    self._dirty_keys.discard(key)
                 self._writebacks += 1
                 flushed += 1
         return flushed
